@@ -73,6 +73,10 @@ class RTok(object):
             parts = self.text
             self.text = []
             plain = "".join(p if isinstance(p, str) else p[1] for p in parts)
+            if self.want_pieces and self.state == "plaintext":
+                # html5lib's PLAINTEXT state never emits SpaceCharacters tokens: everything is a Characters token
+                self.q.append(("chars", plain, [("C", plain)]))
+                return
             if self.want_pieces:
                 pieces = []
                 run = []
